@@ -211,6 +211,92 @@ def expr_job(job):
     return out
 
 
+# ---------------------------------------------------------------------------------------------
+# index helpers (direct-evaluation path): vectors / matrices of symbols, every helper and every position
+# ---------------------------------------------------------------------------------------------
+def index_cases(nv=4, shape=(2, 3)):
+    """(rhs text, reference builder) over a vector v of length nv and a matrix M of the given shape"""
+    R, Cn = shape
+    C_ = []
+    for k in range(nv):
+        C_.append((f"index(v, {k})", lambda v, M, k=k: v[k]))
+    for a in range(nv):
+        for b in range(a + 1, nv + 1):
+            C_.append((f"index_range(v, {a}, {b})", lambda v, M, a=a, b=b: v[a:b]))
+    for i in range(R):
+        for j in range(Cn):
+            C_.append((f"index_2d(M, {i}, {j})", lambda v, M, i=i, j=j: M[i, j]))
+        C_.append((f"index_axis(M, {i}, 0)", lambda v, M, i=i: M[i, :]))
+    for j in range(Cn):
+        C_.append((f"index_axis(M, {j}, 1)", lambda v, M, j=j: M[:, j]))
+    C_.append(("index_axis(M)", lambda v, M: M))
+    C_.append(("index(v, i)", lambda v, M: v[2]))                       # index held by a variable (i = 2)
+    C_.append(("index(v, 1)*index_2d(M, 0, 2) - index(v, i)", lambda v, M: v[1] * M[0, 2] - v[2]))
+    C_.append(("index_range(v, 0, 2)*index(v, 3)", lambda v, M: v[0:2] * v[3]))
+    C_.append(("index_axis(M, 0, 1) + index_range(v, 1, 3)", lambda v, M: M[:, 0] + v[1:3]))
+    C_.append(("index_range(v, 1, 4)^2 - index_axis(M, 1, 0)", lambda v, M: v[1:4] * v[1:4] - M[1, :]))
+    return C_
+
+
+def index_job(job):
+    from pyrates.backend.parser import ExpressionParser
+    from pyrates.backend.computegraph import ComputeGraph
+    nv, shape = job['nv'], tuple(job['shape'])
+    tally = decide.Tally()
+    out = dict(violations=[], inconclusive=[], n=0)
+    for rhs, ref_fn in index_cases(nv, shape):
+        v = symx.symarray('v', nv)
+        M = symx.symarray('M', shape)
+        args = {'v': {'vtype': 'constant', 'value': np.arange(float(nv)) + 1, 'shape': (nv,), 'dtype': 'float64'},
+                'M': {'vtype': 'constant', 'value': np.arange(float(shape[0] * shape[1])).reshape(shape) + 11,
+                      'shape': shape, 'dtype': 'float64'},
+                'i': {'vtype': 'constant', 'value': np.asarray(2), 'shape': (), 'dtype': 'int32'},
+                'zz': {'vtype': 'state_var', 'value': np.asarray(0.0), 'shape': (), 'dtype': 'float64'}}
+        try:
+            cg = ComputeGraph(backend='default')
+            ExpressionParser(expr_str=f"zz = {rhs}", args=args, cg=cg).parse_expr()
+            conc = np.asarray(cg.eval_node(cg.var_updates['non-DEs']['zz']), dtype=float)
+            for n_, val in (('v', v), ('M', M)):
+                try:
+                    cg.get_var(n_)._value = val
+                except Exception:   # noqa  (variable not used by this expression)
+                    pass
+            symx.Ctx.cur = symx.Ctx()
+            got = np.asarray(cg.eval_node(cg.var_updates['non-DEs']['zz']), dtype=object)
+            pc = list(symx.Ctx.cur.pc)
+        except symx.Unsupported as ex:
+            out['inconclusive'].append(dict(kind='engine', what=f"{rhs}: {ex}"))
+            continue
+        except Exception as ex:   # noqa
+            out['violations'].append(dict(kind='index-helper-raises', what=f"direct evaluation of `{rhs}` raises "
+                                          f"{type(ex).__name__}: {ex}"))
+            continue
+        ref = np.asarray(ref_fn(v, M), dtype=object)
+        # concrete reference on the declared values as well (replay of any disagreement)
+        cref = np.asarray(ref_fn(np.arange(float(nv)) + 1, np.arange(float(shape[0] * shape[1])).reshape(shape) + 11),
+                          dtype=float)
+        if got.shape != ref.shape:
+            out['violations'].append(dict(kind='index-helper-shape', what=f"`{rhs}` evaluates to shape {got.shape}, "
+                                          f"the addressed part has shape {ref.shape}"))
+            continue
+        for ix in (np.ndindex(*ref.shape) if ref.shape else [()]):
+            vd, model = decide.prove_equal(got[ix], ref[ix], pc=pc, tally=tally)
+            out['n'] += 1
+            if vd == 'sat':
+                if conc.shape == cref.shape and not np.allclose(conc, cref):
+                    tally.sat_confirmed += 1
+                    out['violations'].append(dict(kind='index-helper-value', what=f"`{rhs}` with v = 1..{nv}, M = 11.. "
+                                                  f"evaluates to {conc.tolist()}, the addressed part is {cref.tolist()}"))
+                else:
+                    tally.sat_spurious += 1
+                    out['inconclusive'].append(dict(kind='sat-not-reproduced', what=rhs))
+                break
+            if vd == 'unknown':
+                out['inconclusive'].append(dict(kind='solver-unknown', what=rhs))
+    out['tally'] = tally.as_dict()
+    return out
+
+
 def run(tier='quick', seed=0, only=None, verbose=False):
     rep = Report('C05', tier, seed, 'translation_validation',
                  functions_encoded=['emitted text of get_run_func for one-equation operators (symx)',
@@ -224,7 +310,7 @@ def run(tier='quick', seed=0, only=None, verbose=False):
                  stubs=['numpy library model'],
                  assumptions=['reals for floats', 'denominators != 0, log/sqrt arguments positive',
                               'transcendentals uninterpreted with instantiated lemmas: a sat answer that does not '
-                              'reproduce numerically is inconclusive', 'index helpers are not generated yet'])
+                              'reproduce numerically is inconclusive', 'index helpers: direct-evaluation path over vectors/matrices of symbols (every helper and position); in generated code they are exercised through the vectorized circuits of C01/C04'])
     n = 80 if tier == 'quick' else 1200
     jobs = []
     for i in range(n):
@@ -272,6 +358,22 @@ def run(tier='quick', seed=0, only=None, verbose=False):
     if only:
         fj = [j for j in fj if only in j['key']]
     tvjobs.run_tv_jobs(rep, fj, verbose=verbose)
+    ij = [dict(key=f"index-helpers:nv={nv}:shape={sh}", nv=nv, shape=sh)
+          for nv, sh in (((4, (2, 3)),) if tier == 'quick' else ((4, (2, 3)), (5, (3, 2)), (6, (4, 4)), (3, (1, 3))))]
+    if only:
+        ij = [j for j in ij if only in j['key']]
+    for job, outc in runner.run_jobs(index_job, ij, timeout=300):
+        if not outc['ok']:
+            rep.harness_error(f"{job['key']}: {outc['error']} {outc.get('tb', '')[-300:]}")
+            continue
+        r = outc['result']
+        rep.add_stats(outc['stats'])
+        rep.add_tally(r['tally'])
+        rep.program(job['key'], sample=dict(key=job['key'], cells=r['n']))
+        for v in r['violations']:
+            rep.violation(dict(property='C05', key=job['key'], **v))
+        for i in r['inconclusive']:
+            rep.inconcl(dict(key=job['key'], **i))
     if not only or 'crosshair' in only:
         ch.consume(rep, 'pyverif.chh.c05_strings', timeout=120 if tier == 'quick' else 400)
     return rep.finish(rule='program = random expression tree (depth, functions, identifier pool) rendered with random '
